@@ -619,6 +619,40 @@ def run(ctx):
                              {"call": name, "args": args, "seed": seed0})
             except Exception as e:
                 ctx.fail("degenerate_size", "%s%r with an integer seed raises %r" % (name, args, e), {"call": name, "args": args, "seed": seed0})
+                l1 = None
+            # seed FORMS: the same integer value as NumPy integer types must behave like the Python int; None = global stream
+            def _same(u, v):
+                lu = list(u) if isinstance(u, tuple) else [u]
+                lv = list(v) if isinstance(v, tuple) else [v]
+                return len(lu) == len(lv) and all(np.array_equal(np.asarray(a_), np.asarray(b_)) for a_, b_ in zip(lu, lv))
+            small = seed0 % 256
+            for form, val, base in (("np.int64", np.int64(seed0), seed0), ("np.int32", np.int32(seed0), seed0), ("np.intp", np.intp(seed0), seed0),
+                                    ("np.uint8", np.uint8(small), small), ("element of Generator.integers", np.random.default_rng(seed0).integers(0, 2**31, size=1)[0], None)):
+                ctx.case(("seed-form", name, json.dumps(jsonable(args), sort_keys=True), form, seed0), nontrivial=True)
+                ctx.count("seedform:%s" % form)
+                inp_f = {"call": name, "args": args, "seed": int(val), "seed_form": form}
+                try:
+                    np.random.seed(rng.randrange(2**31))
+                    of = call(val)
+                    np.random.seed(rng.randrange(2**31))
+                    ob = call(int(val))
+                except Exception as e:
+                    ctx.fail("seed_form", "%s%r raises %r for the valid seed %s(%d)" % (name, args, e, form, int(val)), inp_f)
+                    continue
+                if not _same(of, ob):
+                    ctx.fail("seed_form", "%s%r: seed %s(%d) and the equal Python int give different output" % (name, args, form, int(val)), inp_f)
+            try:
+                gs = rng.randrange(2**31)
+                np.random.seed(gs)
+                n1 = call(None)
+                np.random.seed(gs)
+                n2 = call(None)
+                ctx.case(("seed-form", name, json.dumps(jsonable(args), sort_keys=True), "None", gs), nontrivial=True)
+                ctx.count("seedform:None")
+                if not _same(n1, n2):
+                    ctx.fail("seed_form", "%s%r with random_state=None is not a function of the global numpy stream" % (name, args), {"call": name, "args": args, "seed_form": "None", "np_random_seed": gs})
+            except Exception as e:
+                ctx.fail("seed_form", "%s%r raises %r for random_state=None" % (name, args, e), {"call": name, "args": args, "seed_form": "None"})
         for kind, rs, ref in both_streams(seed0):
             inp = {"call": name, "args": args, "stream": kind, "seed": seed0}
             ctx.case(("degenerate", name, json.dumps(jsonable(args), sort_keys=True), kind, seed0), nontrivial=True)
